@@ -259,7 +259,7 @@ def run_sim(case, acc):
     plans = []
     for a in range(case['attempts'] + 2):
         kind = rnd.choice(('ok-eof', 'rejected', 'ok-close', 'gai', 'ok-perr', 'app-close-at-connecting', 'app-close-at-connected',
-                           'app-send-at-connecting'))
+                           'app-send-at-connecting', 'app-close-at-ready', 'app-close-at-poll'))
         plans.append(kind)
 
     attempt = {'i': 0}
@@ -270,7 +270,7 @@ def run_sim(case, acc):
         i = attempt['i']
         if kind == 'rejected':
             return simnet.ScriptServer([('hs', dict(status=404, reason='NF')), ('eof',)])
-        if kind in ('app-close-at-connecting', 'app-close-at-connected'):
+        if kind in ('app-close-at-connecting', 'app-close-at-connected', 'app-close-at-ready', 'app-close-at-poll'):
             return simnet.ScriptServer([('hs', {}), ('await_close',), ('echo_close',), ('eof',)])
         if kind == 'ok-close':
             return simnet.ScriptServer([('hs', {}), ('raw', F(1, b'm%d' % i) + F(8, refws.close_payload(1000, ''))), ('await_close',), ('eof',)])
@@ -315,6 +315,10 @@ def run_sim(case, acc):
                                 ws.close()
                             elif kind == 'app-send-at-connecting' and ev.name == 'connecting':
                                 ws.send_text('early')
+                            elif kind == 'app-close-at-ready' and ev.name == 'ready':
+                                ws.close(1000, '{} bye')
+                            elif kind == 'app-close-at-poll' and ev.name == 'poll':
+                                ws.close()
                         except env.lerrors.WebSocketError:
                             pass
                         yield ev
